@@ -34,6 +34,15 @@ fn k_tag_values() {
     assert!(IndexSignatureTag::RPMSIGTAG_LONGSIZE.to_u32() == 270);
     assert!(IndexTag::RPMTAG_HEADERIMMUTABLE.to_u32() == 63);
     assert!(IndexTag::RPMTAG_SIZE.to_u32() == 1009);
+    assert!(IndexTag::RPMTAG_NAME.to_u32() == 1000 && IndexTag::RPMTAG_VERSION.to_u32() == 1001);
+    assert!(IndexTag::RPMTAG_RELEASE.to_u32() == 1002 && IndexTag::RPMTAG_EPOCH.to_u32() == 1003);
+    assert!(IndexTag::RPMTAG_SUMMARY.to_u32() == 1004 && IndexTag::RPMTAG_DESCRIPTION.to_u32() == 1005);
+    assert!(IndexTag::RPMTAG_BUILDTIME.to_u32() == 1006 && IndexTag::RPMTAG_BUILDHOST.to_u32() == 1007);
+    assert!(IndexTag::RPMTAG_VENDOR.to_u32() == 1011 && IndexTag::RPMTAG_LICENSE.to_u32() == 1014);
+    assert!(IndexTag::RPMTAG_PACKAGER.to_u32() == 1015 && IndexTag::RPMTAG_GROUP.to_u32() == 1016);
+    assert!(IndexTag::RPMTAG_URL.to_u32() == 1020 && IndexTag::RPMTAG_ARCH.to_u32() == 1022);
+    assert!(IndexTag::RPMTAG_SOURCERPM.to_u32() == 1044 && IndexTag::RPMTAG_COOKIE.to_u32() == 1094);
+    assert!(IndexTag::RPMTAG_VCS.to_u32() == 5034);
     assert!(IndexTag::RPMTAG_LONGSIZE.to_u32() == 5009);
     assert!(IndexTag::RPMTAG_PAYLOADDIGEST.to_u32() == 5092);
     assert!(IndexTag::RPMTAG_PAYLOADDIGESTALGO.to_u32() == 5093);
